@@ -9,8 +9,8 @@ C09 — model of the size accounting of a runtime.
   elaborating if it disappears.
 * `deallocate` mirrors `Runtime::deallocate` (`:191-195`): subtract the recorded size if it is non-zero; `usize`
   underflow is a panic in the dev profile and is modelled as such.
-* `canAllocate` mirrors `can_allocate_by` (`:115-126`), including the `usize` overflow of `size + n` for a huge
-  prospective size.
+* `canAllocate` mirrors `can_allocate_by` (`:115-126`): the prospective size is added with `saturating_add`, so a
+  request near `usize::MAX` is an allocation violation, not an overflow.
 * `Ev`/`step`/`run`: an evaluation as the trace of `ManagedXValue::new` / `ManagedXError::new` (alloc), last-reference
   drops and pre-flight checks it performs.  `Rc`'s "dropped exactly once" is the `live` map: a drop of something that is
   not live does nothing.  A failed allocation creates no value (`xvalue.rs:173-180`), so nothing is recorded for it.
@@ -58,8 +58,7 @@ def canAllocate (s : St) (n : Nat) : Out :=
   match s.limit with
   | none => .ok 0
   | some L =>
-    if s.size + n ≥ usizeBound then .panic
-    else if s.size + n > L then .violation
+    if min (s.size + n) (usizeBound - 1) > L then .violation
     else .ok 0
 
 inductive Ev
@@ -73,7 +72,6 @@ structure Run where
   live : List (Nat × Nat)       -- id ↦ recorded size of every live managed value
   viols : Nat                   -- violations returned so far
   underflows : Nat              -- `usize` underflow panics in `deallocate`
-  overflows : Nat               -- `usize` overflow panics in a pre-flight check
 deriving DecidableEq, Repr
 
 def eraseId (id : Nat) : List (Nat × Nat) → List (Nat × Nat)
@@ -97,15 +95,15 @@ def step (sh : AllocShape) (r : Run) : Ev → Run
     match canAllocate r.st n with
     | .ok _ => r
     | .violation => { r with viols := r.viols + 1 }
-    | .panic => { r with overflows := r.overflows + 1 }
+    | .panic => r
 
 def run (sh : AllocShape) (r : Run) (evs : List Ev) : Run := evs.foldl (step sh) r
 
 /-- a runtime whose accounted total is `base` (0 for a fresh one) and that holds no value yet -/
 def startAt (base : Nat) (limit : Option Nat) : Run :=
-  { st := { size := base, limit := limit }, live := [], viols := 0, underflows := 0, overflows := 0 }
+  { st := { size := base, limit := limit }, live := [], viols := 0, underflows := 0 }
 
-def fresh (limit : Option Nat) : Run := { st := { size := 0, limit := limit }, live := [], viols := 0, underflows := 0, overflows := 0 }
+def fresh (limit : Option Nat) : Run := { st := { size := 0, limit := limit }, live := [], viols := 0, underflows := 0 }
 
 def liveSum (l : List (Nat × Nat)) : Nat := (l.map (·.2)).sum
 
@@ -156,6 +154,7 @@ def Val.payload (c : Consts) : Val → Nat
 inductive UseForm
   | sizeGt            -- `usize::from(stats.size) > L`
   | sizePlusGt        -- `usize::from(stat.size) + n > L`
+  | sizeSatPlusGt     -- `usize::from(stat.size).saturating_add(n) > L`
   | other (text : String)
 deriving DecidableEq, Repr
 
@@ -170,6 +169,7 @@ def LimitUse.monotone (u : LimitUse) : Bool :=
   match u.form with
   | .sizeGt => true
   | .sizePlusGt => true
+  | .sizeSatPlusGt => true
   | .other _ => false
 
 /-- a write to the accounted total -/
